@@ -126,6 +126,10 @@ def make_kinds(case):
 
 DYN_UNION = ["union", "du", [["n", ["int", 1, False], None], ["s", ["arr", ["char"], None], None]], False]
 DYN_UNION2 = ["union", "du2", [["k", ["int", 2, False], None], ["v", ["arr", ["int", 1, False], ["expr", ["bin", "&", ["id", "k"], ["num", 3]]]], None]], False]
+PAD_UNION = ["union", "test", [["s", ["struct", "ps", [["x", ["int", 1, False], None], ["y", ["int", 4, False], None]], False], None],
+                               ["raw", ["int", 8, False], None]], False]
+FLAT_UNION = ["union", "test", [["raw", ["int", 8, False], None], ["s", ["struct", "ps", [["x", ["int", 1, False], None], ["y", ["int", 4, False], None]], False], None]], False]
+EOF_RECS = ["struct", "test", [["h", ["int", 1, False], None], ["r", ["arr", ["struct", "rec", [["p", ["int", 4, False], None], ["q", ["int", 1, False], None]], False], "EOF"], None]], False]
 EXTRA_DEFS = [
     ("dyn-union-member", ["struct", "test", [["h", ["int", 1, False], None], ["u", DYN_UNION, None], ["t", ["int", 2, False], None]], False]),
     ("dyn-union-first", ["struct", "test", [["u", DYN_UNION, None], ["t", ["int", 1, False], None]], False]),
@@ -137,6 +141,14 @@ def cases(tier, seed):
     for label, T in EXTRA_DEFS:
         for cfg in G.configs():
             yield {"label": label, "T": T, "cfg": cfg, "nbytes": 12}
+    for label, T, nb in (("union-top-padded", PAD_UNION, 10), ("union-top-flat", FLAT_UNION, 10)):
+        for cfg in G.configs():
+            if not cfg["compiled"]:
+                yield {"label": label, "T": T, "cfg": cfg, "nbytes": nb, "make": "make_kinds"}
+    for cfg in G.configs():
+        # input that ends right after the last element's fields (no tail padding present), and one byte later
+        for nb in ((4 + 5, 4 + 8 + 5, 4 + 8 + 6) if cfg["align"] else (1 + 5, 1 + 10, 1 + 11)):
+            yield {"label": f"eof-records n={nb}", "T": EOF_RECS, "cfg": cfg, "nbytes": nb, "make": "make_kinds"}
     seen = 0
     for c in families.struct_cases(tier, seed):
         if tier == "quick":
